@@ -1082,7 +1082,15 @@ static ASTNode *parse_prefix_op(Stage1Parser *p) {
                 capacity *= 2;
                 args = realloc(args, sizeof(ASTNode*) * capacity);
             }
-            args[count++] = parse_expression(p);
+            ASTNode *arg = parse_expression(p);
+            if (!arg) {
+                /* The error is already reported and the cursor may not have moved:
+                 * stop here instead of asking for the same operand again forever. */
+                for (int i = 0; i < count; i++) free_ast(args[i]);
+                free(args);
+                return NULL;
+            }
+            args[count++] = arg;
         }
 
         if (!expect(p, TOKEN_RPAREN, "Expected ')' after prefix operation")) {
@@ -1123,7 +1131,14 @@ static ASTNode *parse_prefix_op(Stage1Parser *p) {
                 capacity *= 2;
                 args = realloc(args, sizeof(ASTNode*) * capacity);
             }
-            args[count++] = parse_expression(p);
+            ASTNode *arg = parse_expression(p);
+            if (!arg) {
+                for (int i = 0; i < count; i++) free_ast(args[i]);
+                free(args);
+                free(func_name);
+                return NULL;
+            }
+            args[count++] = arg;
         }
 
         if (!expect(p, TOKEN_RPAREN, "Expected ')' after function call")) {
